@@ -14,3 +14,18 @@ func init() {
 		RealStub: map[string]string{"d2parser.Parse": "real", "d2compiler.Compile + d2ir import path": "real", "bufio, x/text transform": "real", "io.Reader / fs.FS": "simulated (fault reader driven by the tape)"},
 	}
 }
+
+func init() {
+	props["C48"] = propSpec{
+		Engine: "crashsim", Level: "fault_enumeration",
+		QuickS: 40, ThoroughS: 900, DetSamples: 6, DetSamplesT: 40, Exhaustive: true,
+		Rule: "one run = one generated scenario (`d2 fmt` on 1-2 unformatted sources of 28 B - 300 KiB quick / 2 MiB thorough, corpus or generated, multi-byte runes; or a single-board `d2 in.d2 out.svg` with an existing short/long/empty/absent previous output, optionally in a not-yet-existing sub-directory, with --sketch/--theme variations). Per scenario the file-system operations of the uninterrupted command are recorded and EVERY one of them is a crash point (process killed just before it), plus 3 points inside every write (after 1, n/2, n-1 bytes) and one after the last operation: exhaustive per scenario. evaluations = crash-point executions; distinct = distinct (scenario, operation index, bytes written); a scenario is non-trivial when the command really rewrites the target.",
+		Assumptions: []string{
+			"'killed' = the process stops between two system calls or inside a write after k bytes; power loss / page-cache durability is not modelled (d2 issues no fsync and the property speaks of a killed process)",
+			"crash-freeze: from the crash point on every mutating system call of the process fails without executing; reads still succeed (they cannot change the disk)",
+			"the non-atomic fallback inside d2cli.Write only runs after the atomic path returned an I/O error and is outside the crash-point quantifier",
+			"file-system operations of the command are issued by one goroutine in a deterministic order (checked: every crash run must reproduce the recorded prefix, else exit 2)",
+		},
+		RealStub: map[string]string{"d2cli.Run (flag parsing, fmt, compile, dagre layout, render, Write)": "real, in-process", "os / syscall layer": "real, with fault points at the syscall wrappers (std overlay)", "kernel file system": "real (tmp sandbox per scenario)", "process death": "simulated by crash-freeze; cross-checked against real SIGKILL under strace in the thorough tier"},
+	}
+}
